@@ -13,7 +13,7 @@ import threading
 import traceback
 
 from . import spec as S
-from .ref import EnumRef
+from .ref import EnumRef, NoVerdict, NullRef, Z3Ref
 
 EXACT_CLASSES = {"Solver", "SolverCacheless", "SolverComposite", "SolverReplacement", "SolverHybrid", "SolverStrings"}
 APPROX_CLASSES = {"SolverVSA"}
@@ -200,6 +200,10 @@ class Machine:
 
     # ------------------------------------------------------------------ helpers
     def ref0(self):
+        kind = self.cfg.get("ref", "enum")
+        if kind == "z3":
+            # wide alphabets: the generator (dry) has no reference at all, the executor asks an independent Z3
+            return NullRef() if self.dry else Z3Ref(self.variables, self.order)
         if self.base_ref is None:
             self.base_ref = EnumRef(self.variables, self.order)
         return self.base_ref.with_models(self.base_ref.universe)
@@ -210,8 +214,9 @@ class Machine:
         if a is None:
             try:
                 a = S.build_claripy(sp, self.variables, self.cl)
-            except self.errors.ClaripyError as e:
-                raise _Unbuildable(str(e)) from e
+            except (self.errors.ClaripyError, MemoryError, OverflowError) as e:
+                # building / eager folding fails for this input: C04's subject, not a solver history
+                raise _Unbuildable(type(e).__name__ + ": " + str(e)) from e
             self.slots[key] = a
         return a
 
@@ -309,6 +314,9 @@ class Machine:
             fired_before = len(self.seam.fired) if self.seam is not None else 0
             try:
                 ans = getattr(self, "op_" + op["op"])(op)
+            except NoVerdict:
+                ans = ["noverdict"]
+                self.stats["noverdict"] = self.stats.get("noverdict", 0) + 1
             except _Skip as e:
                 ans = ["skip", str(e)]
                 self.stats["skipped"] += 1
@@ -518,6 +526,8 @@ class Machine:
         pv = self.pinned_value(h, e)
         if pv is not None:
             return pv
+        if h.ref.kind != "enum":
+            return None
         V = h.ref.values(e)
         if len(V) == 1:
             return next(iter(V))
@@ -694,15 +704,14 @@ class Machine:
             self.bad("too-many-results", h, op, es=es, n=n, got=tups)
         if len(set(tups)) != len(tups):
             self.bad("duplicate-results", h, op, es=es, n=n, got=tups)
-        T = h.ref.tuples(es, extras)
         if mode == "exact":
-            badt = [t for t in tups if t not in T]
+            badt = h.ref.infeasible_tuples(es, tups, extras)
             if badt:
                 self.bad("infeasible-value", h, op, es=es, n=n, got=tups, infeasible=badt, extra=extras)
         if len(tups) < n:
-            rest = T - set(tups)
-            if rest:
-                self.bad("incomplete-eval", h, op, es=es, n=n, got=tups, missing=min(rest), extra=extras)
+            miss = h.ref.missing_tuple(es, tups, extras)
+            if miss is not None:
+                self.bad("incomplete-eval", h, op, es=es, n=n, got=tups, missing=miss, extra=extras)
         return ["tups", sorted(tups) if len(tups) < n else tups]
 
     def _minmax(self, op, is_max):
@@ -875,6 +884,8 @@ class Machine:
 
     def op_merge(self, op):
         h = self.H(op)
+        if h.ref.kind != "enum":
+            raise _Skip("needs the enumeration reference")
         others = self._others(op, h)
         if not others:
             raise _Skip("no others")
@@ -933,6 +944,8 @@ class Machine:
 
     def op_combine(self, op):
         h = self.H(op)
+        if h.ref.kind != "enum":
+            raise _Skip("needs the enumeration reference")
         others = self._others(op, h)
         if not others:
             raise _Skip("no others")
@@ -963,6 +976,8 @@ class Machine:
 
     def op_split(self, op):
         h = self.H(op)
+        if h.ref.kind != "enum":
+            raise _Skip("needs the enumeration reference")
         if self.dry:
             raise HarnessError("split cannot be replayed dry")
         self.used_specs = list(h.lineage)
@@ -1040,6 +1055,8 @@ class Machine:
     # ------------------------------------------------------------------ ops: unsat core (C16)
     def op_unsat_core(self, op):
         h = self.H(op)
+        if h.ref.kind != "enum":
+            raise _Skip("needs the enumeration reference")
         self.used_specs = list(h.lineage)
         if self.dry:
             return ["dry"]
